@@ -991,6 +991,20 @@ class Interp:
                 self.assign(tt, x, fr)
         elif isinstance(t, ast.Attribute):
             obj = self.eval(t.value, fr)
+            from .values import VTuple as _VT
+            k = getattr(obj, '_kind', None) if isinstance(obj, _VT) else None
+            if k is not None and k.fields and t.attr in k.fields and isinstance(t.value, ast.Name):
+                # a record (attrs / slots object modelled as a tuple of fields) held in a LOCAL VARIABLE: the assignment
+                # updates that variable.  Other references to the same object (the container it was taken from) do not see
+                # the update - listed assumption A-ALIAS; the functions under contract do not read the object through another
+                # reference afterwards.
+                self.assumed.add('A-ALIAS: attribute assignment on a record held in a local variable updates that variable only')
+                items = list(obj.items)
+                items[k.fields.index(t.attr)] = v
+                nt = _VT(tuple(items))
+                nt._kind = k
+                self.assign(t.value, nt, fr)
+                return
             self.set_attr(obj, t.attr, v, t)
         elif isinstance(t, ast.Subscript):
             obj = self.eval(t.value, fr)
